@@ -241,7 +241,7 @@ def _broadcast_loops(cfg, main, P, item_names) -> List[Node]:
 
 
 def r09_5(ctx, P) -> None:
-    init = ctx.unit("itertools.Tee.__init__")
+    init = ctx.inlined(ctx.unit("itertools.Tee.__init__"))  # children may be built by a private helper method
     peer = ctx.unit("itertools.tee_peer")
     node = init.node
     me = init.param_names()[0]
